@@ -39,12 +39,13 @@ ASSUMPTIONS = [
 def strategy_(draw, tier):
     if draw(st.booleans()):
         spec = draw(sched.sched_specs(quiet=True, adaptive=False,
-                                      precisions=(None,), max_procs=4))
+                                      precisions=(None,), max_procs=4,
+                                      deep=tier == 'thorough'))
         spec['kind'] = 'snapshot'
         return spec
     base = draw(sched.sched_specs(quiet=True, adaptive=False,
                                   precisions=(None,), max_procs=4,
-                                  steps_ok=False))
+                                  steps_ok=False, deep=tier == 'thorough'))
     if len(base['procs']) < 2 and draw(st.integers(0, 3)) > 0:
         p = dict(base['procs'][0])
         p['name'] = 'p1'
